@@ -854,8 +854,14 @@ func (lw *lckWorld) formatFile() {
 		desc string
 	}
 	npaths := 0
-	var walk func(b *ssa.BasicBlock, evs []event, visited map[*ssa.BasicBlock]bool)
-	walk = func(b *ssa.BasicBlock, evs []event, visited map[*ssa.BasicBlock]bool) {
+	// phiEnv: the value each phi node takes on the path being walked (decided by the edge the path arrives from), so
+	// that `case format == Go && fr.hasGo():` (a phi of false and the probe's result) is followed path-sensitively
+	type phiEnv map[*ssa.Phi]ssa.Value
+	var walkFrom func(from, b *ssa.BasicBlock, evs []event, visited map[*ssa.BasicBlock]bool, env phiEnv)
+	walk := func(from, b *ssa.BasicBlock, evs []event, visited map[*ssa.BasicBlock]bool, env phiEnv) {
+		walkFrom(from, b, evs, visited, env)
+	}
+	walkFrom = func(from, b *ssa.BasicBlock, evs []event, visited map[*ssa.BasicBlock]bool, env phiEnv) {
 		if visited[b] {
 			r.bad("LCK-5", name, "loop", w.Pos(f.Pos()), "FormatFile contains a loop: a formatter may run more than once per request")
 			return
@@ -865,6 +871,27 @@ func (lw *lckWorld) formatFile() {
 		}
 		visited[b] = true
 		defer delete(visited, b)
+		if from != nil {
+			ne := phiEnv{}
+			for k, v := range env {
+				ne[k] = v
+			}
+			for i, pr := range b.Preds {
+				if pr != from {
+					continue
+				}
+				for _, ins := range b.Instrs {
+					if phi, ok := ins.(*ssa.Phi); ok {
+						v := phi.Edges[i]
+						if p2, ok := v.(*ssa.Phi); ok && env[p2] != nil {
+							v = env[p2]
+						}
+						ne[phi] = v
+					}
+				}
+			}
+			env = ne
+		}
 		for _, ins := range b.Instrs {
 			switch x := ins.(type) {
 			case *ssa.Call:
@@ -900,7 +927,54 @@ func (lw *lckWorld) formatFile() {
 						neg = !neg
 						continue
 					}
+					if phi, ok := cond.(*ssa.Phi); ok && env[phi] != nil {
+						cond = env[phi]
+						continue
+					}
 					break
+				}
+				if k, ok := cond.(*ssa.Const); ok && k.Value != nil && k.Value.Kind() == constant.Bool {
+					// decided on this path
+					if constant.BoolVal(k.Value) != neg {
+						walk(b, b.Succs[0], evs, visited, env)
+					} else {
+						walk(b, b.Succs[1], evs, visited, env)
+					}
+					return
+				}
+				// `v == K` for a value already known equal to another constant on this path is false: the cases
+				// of one switch (or of an if-chain) over the requested format exclude each other
+				if bin, ok := cond.(*ssa.BinOp); ok && (bin.Op == token.EQL || bin.Op == token.NEQ) {
+					v, k := bin.X, bin.Y
+					if _, isK := v.(*ssa.Const); isK {
+						v, k = k, v
+					}
+					if kc, ok := k.(*ssa.Const); ok && !kc.IsNil() && kc.Value != nil {
+						known := ""
+						for _, e := range evs {
+							if e.kind == "eq" && e.val == v {
+								known = e.desc
+							}
+						}
+						if known != "" {
+							isEq := (known == kc.Value.ExactString()) == (bin.Op == token.EQL)
+							if isEq != neg {
+								walk(b, b.Succs[0], evs, visited, env)
+							} else {
+								walk(b, b.Succs[1], evs, visited, env)
+							}
+							return
+						}
+						eqEv := append(append([]event{}, evs...), event{kind: "eq", val: v, desc: kc.Value.ExactString()})
+						if (bin.Op == token.EQL) != neg {
+							walk(b, b.Succs[0], eqEv, visited, env)
+							walk(b, b.Succs[1], evs, visited, env)
+						} else {
+							walk(b, b.Succs[0], evs, visited, env)
+							walk(b, b.Succs[1], eqEv, visited, env)
+						}
+						return
+					}
 				}
 				evT, evF := evs, evs
 				if c, ok := cond.(*ssa.Call); ok {
@@ -930,8 +1004,8 @@ func (lw *lckWorld) formatFile() {
 						evF = append(append([]event{}, evs...), event{kind: bb, val: other})
 					}
 				}
-				walk(b.Succs[0], evT, visited)
-				walk(b.Succs[1], evF, visited)
+				walk(b, b.Succs[0], evT, visited, env)
+				walk(b, b.Succs[1], evF, visited, env)
 				return
 			case *ssa.Return:
 				npaths++
@@ -1023,7 +1097,7 @@ func (lw *lckWorld) formatFile() {
 				}
 				return
 			case *ssa.Jump:
-				walk(b.Succs[0], evs, visited)
+				walk(b, b.Succs[0], evs, visited, env)
 				return
 			case *ssa.Panic:
 				npaths++
@@ -1032,7 +1106,7 @@ func (lw *lckWorld) formatFile() {
 			}
 		}
 	}
-	walk(f.Blocks[0], nil, map[*ssa.BasicBlock]bool{})
+	walk(nil, f.Blocks[0], nil, map[*ssa.BasicBlock]bool{}, phiEnv{})
 	r.note("formatfile_paths", npaths)
 	if npaths < 2 {
 		Undecided("FormatFile has %d paths: rule no longer matches", npaths)
